@@ -269,6 +269,21 @@ func (c *RollingFileAppender) createFile(formatTime string) (string, *os.File, e
 	return filePath, file, nil
 }
 
+// isRotatedFile reports whether name is a rotated file of this appender,
+// i.e. "<FileName>.<yyyyMMddHHmmss>".
+func (c *RollingFileAppender) isRotatedFile(name string) bool {
+	suffix, ok := strings.CutPrefix(name, c.FileName+".")
+	if !ok || len(suffix) != 14 {
+		return false
+	}
+	for i := 0; i < len(suffix); i++ {
+		if suffix[i] < '0' || suffix[i] > '9' {
+			return false
+		}
+	}
+	return true
+}
+
 // clearExpiredFiles removes log files older than MaxAge.
 func (c *RollingFileAppender) clearExpiredFiles() {
 	expiration := time.Now().Add(-time.Duration(c.MaxAge) * time.Hour)
@@ -277,7 +292,7 @@ func (c *RollingFileAppender) clearExpiredFiles() {
 		if entry.IsDir() {
 			continue
 		}
-		if !strings.HasPrefix(entry.Name(), c.FileName+".") {
+		if !c.isRotatedFile(entry.Name()) {
 			continue
 		}
 		info, err := entry.Info()
